@@ -69,6 +69,8 @@ var cmds = map[string]func([]string){
 	"wexec-compile-child":   wexec.ChildCompile,
 	"wexec-constexpr":       wexec.MainConstExpr,
 	"wexec-constexpr-child": wexec.ChildConstExpr,
+	"wexec-modindex":        wexec.MainModIndex,
+	"wexec-modindex-child":  wexec.ChildModIndex,
 	"fc-child":              fcache.Child,
 	"fc-replay":             fcache.ReplayProc,
 	"fc-gate":               fcache.ReplayGate,
